@@ -650,6 +650,74 @@ func (c *ctx) faulty(ns string, failAfter int, once bool, elements []string, pro
 	}
 }
 
+// faultyMux is faulty with a multiplexer as the session's handler: mode "u" = nothing registered
+// (the fallback answers every request), "r" = the recording handler registered for the wildcard
+// payload of all four types.  The connection refuses the write number failAfter.  Property, judged
+// on the wire only: the first request without a reply on the wire must have ended the stream -
+// Serve does not return nil and no later request is answered.
+func (c *ctx) faultyMux(ns, mode string, failAfter int, once bool, elements []string, progs []c08.Prog, class string) {
+	r := c.r
+	local, remote := c08.LocalJID, c08.RemoteJID
+	if ns == c08.NSServer {
+		local, remote = c08.LocalSrv, c08.RemoteSrv
+	}
+	body := []byte(strings.Join(elements, "") + "</stream:stream>")
+	toks := c08.Tokens(ns, body)
+	mk := func(rec xmpp.Handler) xmpp.Handler {
+		if mode != "r" {
+			return mux.New(ns)
+		}
+		h := mux.IQHandlerFunc(func(iq stanza.IQ, t xmlstream.TokenReadEncoder, start *xml.StartElement) error {
+			return rec.HandleXMPP(t, start)
+		})
+		return mux.New(ns, mux.IQ(stanza.GetIQ, xml.Name{}, h), mux.IQ(stanza.SetIQ, xml.Name{}, h),
+			mux.IQ(stanza.ResultIQ, xml.Name{}, h), mux.IQ(stanza.ErrorIQ, xml.Name{}, h))
+	}
+	res := c08.ServeOpt(c08.Opts{FailAfter: failAfter, FailOnce: once}, ns, local, remote, body, progs, mk, nil)
+	line := strings.Join([]string{"servewm", mode, fmt.Sprint(failAfter), c08.NsField(ns), common.HexS(res.LocalBare), c08.JidMap(toks), common.EncToks(toks), c08.EncProgs(progs)}, " ")
+	lines := []string{r.Prop + " " + line, "#faultmux " + common.HexS(strings.Join(elements, "\x00")) + " " + common.B(once)}
+	if res.Stall || res.Panic != "" {
+		r.Line(line, "PANIC-OR-STALL")
+		r.Fail("no-panic", "fault-panic", lines, res.Panic)
+		return
+	}
+	els, _, _ := c08.Written(ns, res.Out)
+	wobs, _ := c08.WrittenObs(els)
+	cls := c08.ErrClass(res.Err)
+	r.Line(line, wobs+" "+cls)
+	r.Case(line, true, fmt.Sprintf("%s/faultmux-%s-%d/%d/%s", class, mode, failAfter, len(elements), cls))
+	lost := ""
+	depth := 0
+	for _, t := range toks {
+		switch tt := t.(type) {
+		case xml.StartElement:
+			if depth == 0 {
+				id, typ := c08AttrVal(tt.Attr, "id"), c08AttrVal(tt.Attr, "type")
+				if tt.Name.Local == "iq" && tt.Name.Space == ns && (typ == "get" || typ == "set") && id != "" {
+					got := 0
+					for _, e := range els {
+						if !e.StreamError && isReply(e.Toks, id, ns) {
+							got++
+						}
+					}
+					switch {
+					case got == 0 && lost == "":
+						lost = id
+					case got > 0 && lost != "":
+						r.Fail("answered-or-terminated", "served-on-after-lost-reply", lines, fmt.Sprintf("request %q got no reply but the later request %q was answered", lost, id))
+					}
+				}
+			}
+			depth++
+		case xml.EndElement:
+			depth--
+		}
+	}
+	if lost != "" && cls == "clean" {
+		r.Fail("answered-or-terminated", "nil-after-lost-reply", lines, fmt.Sprintf("request %q got no reply and Serve returned nil", lost))
+	}
+}
+
 // pend is a local request that is waiting for its response while the peer's input is served.
 
 // outstate runs several elements in ONE session whose output cannot take a reply any more: the
@@ -1229,6 +1297,28 @@ func Run(r *common.Run) error {
 				c.faulty(ns, fa, f[2] == "1", strings.Split(string(sb), "\x00"), ps, "replay")
 				continue
 			}
+			if len(f) == 3 && f[0] == "#faultmux" && i > 0 {
+				sb, err := common.UnHex(f[1])
+				if err != nil {
+					return err
+				}
+				g := strings.Fields(lines[i-1])
+				if len(g) < 9 {
+					continue
+				}
+				ns := c08.NSClient
+				if strings.HasPrefix(g[4], "s") {
+					ns = c08.NSServer
+				}
+				fa := 0
+				fmt.Sscanf(g[3], "%d", &fa)
+				ps, err := c08.DecProgs(g[8])
+				if err != nil {
+					return err
+				}
+				c.faultyMux(ns, g[2], fa, f[2] == "1", strings.Split(string(sb), "\x00"), ps, "replay")
+				continue
+			}
 			if len(f) == 3 && f[0] == "#outstate" && i > 0 {
 				sb, err := common.UnHex(f[1])
 				if err != nil {
@@ -1686,6 +1776,11 @@ func Run(r *common.Run) error {
 					for fa := 0; fa <= len(seq)+1; fa++ {
 						for _, once := range []bool{false, true} {
 							c.faulty(ns, fa, once, seq, progs, "exhaustive-fault")
+							if si <= 1 {
+								// the same sessions with a multiplexer as the handler
+								c.faultyMux(ns, "u", fa, once, seq, nil, "exhaustive-fault")
+								c.faultyMux(ns, "r", fa, once, seq, progs, "exhaustive-fault")
+							}
 						}
 					}
 				}
